@@ -272,3 +272,92 @@ func superviseBoth(argv []string, e *agentEnv, sock string, parkAt int, onPark f
 	// the supervisor matches one substring: the DAG name is part of both the socket name and the scratch paths
 	return SupervisePark(argv, e.env, e.name, 0, -1, stdout, parkAt, onPark)
 }
+
+// ---- C08, truth of the reported status: live while running, final afterwards -------------------------------
+
+// TruthRuns runs the real binary (not killed) on a few DAG variants, polls the reported status while the run is in
+// progress and compares the persisted final status with what the steps really did (marker file, log files).
+func TruthRuns(bin string, base string, emit func(Ev)) error {
+	variants := []struct {
+		name string
+		yaml func(e *agentEnv) string
+		want map[string]string // step -> expected final node status
+		runs map[string]int    // step -> expected number of executions
+		run  string            // expected run status
+	}{
+		{"all-succeed", func(e *agentEnv) string {
+			return fmt.Sprintf("logDir: %s\nsteps:\n  - name: s1\n    command: sh -c \"echo s1 >> %s\"\n  - name: s2\n    command: sh -c \"sleep 0.4; echo s2 >> %s\"\n    depends: [s1]\n", e.logs, e.marker, e.marker)
+		}, map[string]string{"s1": "finished", "s2": "finished"}, map[string]int{"s1": 1, "s2": 1}, "finished"},
+		{"fail-retry-continue", func(e *agentEnv) string {
+			return fmt.Sprintf("logDir: %s\nsteps:\n  - name: s1\n    command: sh -c \"echo s1 >> %s; exit 1\"\n    retryPolicy:\n      limit: 1\n      intervalSec: 0\n    continueOn:\n      failure: true\n  - name: s2\n    command: sh -c \"sleep 0.4; echo s2 >> %s\"\n    depends: [s1]\n  - name: s3\n    command: sh -c \"echo s3 >> %s; exit 3\"\n    depends: [s2]\n  - name: s4\n    command: sh -c \"echo s4 >> %s\"\n    depends: [s3]\n", e.logs, e.marker, e.marker, e.marker, e.marker)
+		}, map[string]string{"s1": "failed", "s2": "finished", "s3": "failed", "s4": "canceled"}, map[string]int{"s1": 2, "s2": 1, "s3": 1, "s4": 0}, "failed"},
+		{"skip", func(e *agentEnv) string {
+			return fmt.Sprintf("logDir: %s\nsteps:\n  - name: s1\n    command: sh -c \"sleep 0.4; echo s1 >> %s\"\n  - name: s2\n    command: sh -c \"echo s2 >> %s\"\n    depends: [s1]\n    preconditions:\n      - condition: \"no\"\n        expected: \"yes\"\n  - name: s3\n    command: sh -c \"echo s3 >> %s\"\n    depends: [s2]\n", e.logs, e.marker, e.marker, e.marker)
+		}, map[string]string{"s1": "finished", "s2": "skipped", "s3": "skipped"}, map[string]int{"s1": 1, "s2": 0, "s3": 0}, "finished"},
+	}
+	for i, v := range variants {
+		e := newAgentEnv(base, 3000+i, 0)
+		os.WriteFile(e.file, []byte(v.yaml(e)), 0o644)
+		c := exec.Command(bin, "start", e.file)
+		c.Env = e.env
+		if err := c.Start(); err != nil {
+			e.cleanup()
+			return err
+		}
+		waited := make(chan error, 1)
+		go func() { waited <- c.Wait() }()
+		// observations while the run is in progress
+		ds := dsclient.NewDataStores(e.dags, e.data, e.susp, dsclient.DataStoreOptions{})
+		cli := client.New(ds, "/bin/false", e.base, quietLogger)
+		d, _ := dag.LoadMetadata(e.file)
+		live := []string{}
+		liveOK := true
+		done := false
+		for !done {
+			select {
+			case <-waited:
+				done = true
+			case <-time.After(40 * time.Millisecond):
+				st, err := cli.GetLatestStatus(d)
+				if err != nil || st == nil {
+					continue
+				}
+				s := st.Status.String()
+				if len(live) == 0 || live[len(live)-1] != s {
+					live = append(live, s)
+				}
+				if len(e.markerLines()) > 0 && s != "running" {
+					// something has run and the process has not exited yet: must be reported running ... unless it has just finished
+					select {
+					case <-waited:
+						done = true
+					default:
+						liveOK = liveOK && (s == v.run) // the final status may be visible a moment before the process exits
+					}
+				}
+			}
+		}
+		time.Sleep(20 * time.Millisecond)
+		st, err := cli.GetLatestStatus(d)
+		rec := Ev{"kind": "truth", "variant": v.name, "liveStatuses": live, "liveOK": liveOK, "latestErr": fmt.Sprint(err), "runStatus": "?", "wantRun": v.run}
+		counts := map[string]int{}
+		for _, l := range e.markerLines() {
+			counts[strings.SplitN(l, ":", 2)[0]]++
+		}
+		nodes := []Ev{}
+		if st != nil {
+			rec["runStatus"] = st.Status.String()
+			rec["startNotAfterFinish"] = st.StartedAt <= st.FinishedAt && st.FinishedAt != "-"
+			for _, n := range st.Nodes {
+				_, lerr := os.Stat(n.Log)
+				ran := counts[n.Step.Name]
+				nodes = append(nodes, Ev{"step": n.Step.Name, "status": n.Status.String(), "want": v.want[n.Step.Name], "executions": ran, "wantExecutions": v.runs[n.Step.Name],
+					"retryCount": n.RetryCount, "logExists": lerr == nil || (ran == 0 && n.Log == ""), "startNotAfterFinish": n.StartedAt <= n.FinishedAt || n.StartedAt == "-"})
+			}
+		}
+		rec["nodes"] = nodes
+		emit(rec)
+		e.cleanup()
+	}
+	return nil
+}
